@@ -86,6 +86,11 @@ func (tx *ATTx) rollbackLocal() {
 // commitOnAT
 func (tx *ATTx) commitOnAT() error {
 	originTx := tx.tx
+	if !originTx.tranCtx.OpenGlobalTransaction() {
+		// a local transaction (begun without an XID) is no branch: it has no phase one, even when
+		// one of its statements ran with a context that carries an XID and left images behind
+		return originTx.commitOnLocal()
+	}
 	if err := originTx.register(originTx.tranCtx); err != nil {
 		tx.rollbackLocal()
 		return err
